@@ -96,10 +96,11 @@ static unsigned long refsum_ctx(kdump_ctx_t *c, char *which)
 
 static void drop_obj(int o)
 {
-	unsigned char bits[64]; kdump_addr_t idx = 0;
+	static unsigned char bits[0x3000 / 8]; kdump_addr_t idx = 0;
 	switch (obj[o].kind) {
 	case 1:
-		LIB(kdump_bmp_get_bits(obj[o].bmp, 0, 0xff, bits));
+		/* the whole range: a narrower window trips the elf_get_bits overrun (C07's) */
+		LIB(kdump_bmp_get_bits(obj[o].bmp, 0, 0x2fff, bits));
 		LIB(kdump_bmp_find_set(obj[o].bmp, &idx));
 		LIB(kdump_bmp_decref(obj[o].bmp));
 		break;
@@ -228,6 +229,8 @@ static void do_op(char *op)
 	(void)st;
 }
 
+static unsigned long underflow_seen;
+static char underflow_ops[32];
 static void check_after(int k, const char *op)
 {
 	int i;
@@ -238,7 +241,12 @@ static void check_after(int k, const char *op)
 			if (s) fail("op#%d %s: refsum=%lu in cache(s) %sof ctx %d", k, op, s, which, i);
 		}
 	if (oom_locks_held()) fail("op#%d %s: %d lock(s) held at return", k, op, oom_locks_held());
-	if (oom_lock_underflow) fail("op#%d %s: a lock was released that was not held", k, op);
+	if (oom_lock_underflow != underflow_seen) {
+		/* not fatal for the rest of the history: remembered by kind of operation */
+		underflow_seen = oom_lock_underflow;
+		if (!strchr(underflow_ops, op[0]) && strlen(underflow_ops) < sizeof underflow_ops - 1)
+			underflow_ops[strlen(underflow_ops)] = op[0];
+	}
 	for (i = 0; i < nfiles; ++i) {
 		struct stat st;
 		if (lseek(fds[i], 0, SEEK_CUR) != fdpos[i]) fail("op#%d %s: descriptor %d repositioned", k, op, i);
@@ -273,7 +281,8 @@ static void run_seq(char *line)
 		if (k % 2 == 0) for (i = 0; i < NOBJ; ++i) if (obj[i].kind) drop_obj(i);
 		for (i = 0; i < NCTX; ++i) { int j = (k % 3) ? i : NCTX - 1 - i; if (ctx[j]) { LIB(kdump_free(ctx[j])); ctx[j] = NULL; } }
 		for (i = 0; i < NOBJ; ++i) if (obj[i].kind) drop_obj(i);
-		if (oom_lock_underflow) fail("teardown: a lock was released that was not held");
+		if (oom_lock_underflow != underflow_seen && !strchr(underflow_ops, 'Z'))
+			underflow_ops[strlen(underflow_ops)] = 'Z';
 		if (oom_locks_held()) fail("teardown: %d lock(s) held", oom_locks_held());
 		if (oom_nblk) {
 			unsigned long j; char l[300] = ""; size_t ll = 0;
@@ -283,6 +292,8 @@ static void run_seq(char *line)
 		}
 	}
 	for (i = 0; i < nfiles; ++i) close(fds[i]);
+	if (!problem[0] && underflow_ops[0])
+		fail("lock-underflow: a lock was released that was not held, in ops of kind %s (Z = final teardown)", underflow_ops);
 	if (problem[0]) { for (char *p = problem; *p; ++p) if (*p == ' ') *p = '_'; out("BAD %s", problem); }
 	else out("ok ops=%d lockev=%lu", k, oom_lock_events);
 }
